@@ -129,6 +129,9 @@ func genStress(kind string, cfg *hx.Cfg) [][2]string {
 		if kind == "c26" {
 			n = 60 + rng.Intn(80) // the race detector slows everything down
 		}
+		if m == "tables readers" || m == "server api" {
+			n = n/3 + 20 // every read touches every field of a dump
+		}
 		spec := fmt.Sprintf("stress %s p=%d g=%d n=%d s=%d", m, p, g, n, rng.U64()%1000000)
 		out = append(out, [2]string{fmt.Sprintf("s%d", i), spec})
 	}
@@ -186,7 +189,7 @@ func runCaseInChild(exe, kind, id, spec, tmp string) string {
 	go func() { done <- cmd.Wait() }()
 	select {
 	case <-done:
-	case <-time.After(*childTimeout + 20*time.Second):
+	case <-time.After(10**childTimeout + 20*time.Second):
 		cmd.Process.Kill()
 		<-done
 		return "ERROR child did not finish (hard timeout)"
@@ -262,17 +265,30 @@ func runChild(kind, spec string, timeout time.Duration) {
 	if strings.HasPrefix(name, "witness/") && !strings.HasPrefix(name, "witness/race-") {
 		timeout = 2 * time.Second // a deadlock witness is expected to hang
 	}
-	select {
-	case r := <-done:
-		fmt.Println("RESULT " + r)
-	case <-time.After(timeout):
+	// A watchdog expiry is a deadlock only if nothing of the case can run any more: as long as one of its
+	// goroutines is running or runnable the case is merely slow (loaded machine, race detector) and gets more time.
+	for round := 0; ; round++ {
+		select {
+		case r := <-done:
+			fmt.Println("RESULT " + r)
+			os.Stdout.Sync()
+			os.Exit(0)
+		case <-time.After(timeout):
+		}
 		buf := make([]byte, 1<<22)
 		buf = buf[:runtime.Stack(buf, true)]
-		sig := DeadlockSignature(string(buf), base)
-		fmt.Println("RESULT DEADLOCK " + sig)
+		if Progressing(string(buf), base) && round < 8 {
+			continue
+		}
+		if Progressing(string(buf), base) {
+			fmt.Println("RESULT ERROR case still running after 9 watchdog periods (slow, not blocked)")
+		} else {
+			fmt.Println("RESULT DEADLOCK " + DeadlockSignature(string(buf), base))
+		}
 		if os.Getenv("LOCKSTRESS_DUMP") != "" {
 			fmt.Println(string(buf))
 		}
+		break
 	}
 	os.Stdout.Sync()
 	os.Exit(0)
@@ -334,6 +350,27 @@ func canonFunc(frame string) string {
 	f = regexp.MustCompile(`\.func\d+(\.\d+)*$`).ReplaceAllString(f, "")
 	f = regexp.MustCompile(`\[\.\.\.\]`).ReplaceAllString(f, "")
 	return f
+}
+
+// Progressing: some goroutine created after `base` (other than the watchdog, which is the one taking the dump and
+// has no bio-rd or harness case frame) is running or runnable inside bio-rd or harness code.
+func Progressing(dump string, base int) bool {
+	for _, g := range strings.Split(dump, "\n\n") {
+		lines := strings.Split(strings.TrimSpace(g), "\n")
+		h := goroutineHdr.FindStringSubmatch(lines[0])
+		if h == nil {
+			continue
+		}
+		id, _ := strconv.Atoi(h[1])
+		if id <= base {
+			continue
+		}
+		st := h[2]
+		if strings.HasPrefix(st, "running") || strings.HasPrefix(st, "runnable") || strings.HasPrefix(st, "sleep") || strings.HasPrefix(st, "syscall") {
+			return true
+		}
+	}
+	return false
 }
 
 // DeadlockSignature: for every goroutine created after `base` that is blocked on a mutex or on a
